@@ -121,6 +121,11 @@ mutants = {
 		return err
 	}
 '''+WC)],
+ 'S6-capability-trimspace-at-filter': [(VG,'if capability == pluginframework.CapabilityRevocationCheckVerifier || capability == pluginframework.CapabilityTrustedIdentityVerifier {','if c := pluginframework.Capability(strings.TrimSpace(string(capability))); c == pluginframework.CapabilityRevocationCheckVerifier || c == pluginframework.CapabilityTrustedIdentityVerifier {\n\t\t\t\tcapability = c')],
+ 'S7-capability-prefix-at-filter': [(VG,'if capability == pluginframework.CapabilityRevocationCheckVerifier || capability == pluginframework.CapabilityTrustedIdentityVerifier {','if strings.HasPrefix(string(capability), "SIGNATURE_VERIFIER.") {')],
+ 'S7b-capability-equalfold-filter-and-guard': [(VG,'if capability == pluginframework.CapabilityRevocationCheckVerifier || capability == pluginframework.CapabilityTrustedIdentityVerifier {','if strings.EqualFold(string(capability), string(pluginframework.CapabilityRevocationCheckVerifier)) || strings.EqualFold(string(capability), string(pluginframework.CapabilityTrustedIdentityVerifier)) {'),(VG,'if !slices.Contains(pluginCapabilities, pluginframework.CapabilityTrustedIdentityVerifier) {','if !slices.Contains(pluginCapabilities, pluginframework.CapabilityTrustedIdentityVerifier) && !slices.Contains(pluginCapabilities, pluginframework.Capability(strings.ToLower(string(pluginframework.CapabilityTrustedIdentityVerifier)))) {')],
+ 'S8-rdn-last-value-stands': [(PK,"\t\tif len(rdn.Attributes) > 1 {","\t\tfor len(rdn.Attributes) > 1 && rdn.Attributes[0].Type == rdn.Attributes[1].Type {\n\t\t\trdn.Attributes = rdn.Attributes[1:]\n\t\t}\n\t\tif len(rdn.Attributes) > 1 {")],
+ 'S9-rdn-first-attribute-stands': [(PK,"\t\tif len(rdn.Attributes) > 1 {\n\t\t\treturn nil, fmt.Errorf(\"distinguished name (DN) %q has multi-valued RDN attributes, remove multi-valued RDN attributes as they are not supported\", name)\n\t\t}\n\t\tfor _, attribute := range rdn.Attributes {","\t\tfor _, attribute := range rdn.Attributes[:1] {")],
  'R1-message-and-order': [(VG,'''			if identityValue == "" {
 				return fmt.Errorf("trust policy statement %q has trusted identity %q without an identity value", policyName, identity)
 			}''','''			if len(identityValue) == 0 {
